@@ -113,6 +113,24 @@ def x_c12(run):
             n += 1
             run.viol.append(Violation("O", "assembly and portable decoders disagree", case=c, impl="asm: " + x[:150], expected="noasm: " + y[:150], variant="asm"))
     run.say(f"C12: {len(cases)} cases through both builds, {n} differences")
+    # lengths of 2^31 / 2^32 and beyond (only a 64-bit count holds them): both builds must reject them
+    import os, subprocess
+    from .common import BIN
+    outs = {}
+    for name in ("vh", "vh-noasm"):
+        p = subprocess.run([os.path.join(BIN, name), "biglen"], stdout=subprocess.PIPE, stderr=subprocess.PIPE, timeout=900)
+        outs[name] = p.stdout.decode().splitlines()
+    m = 0
+    if len(outs["vh"]) != 40 or len(outs["vh-noasm"]) != 40:
+        run.viol.append(Violation("O", "biglen run incomplete", case="vh biglen", impl=f"{len(outs['vh'])}/{len(outs['vh-noasm'])} lines", expected="40 lines each", variant="asm"))
+    for x, y in zip(outs["vh"], outs["vh-noasm"]):
+        run.cov["evaluations"] += 1
+        if x != y or not x.endswith("-> err"):
+            m += 1
+            run.viol.append(Violation("O", "assembly and portable decoders disagree on a length of 2^31..2^32+", case="vh biglen  # " + x.split(" ->")[0],
+                                      impl="asm: " + x, expected="noasm: " + y + " (and both an error: no destination holds such a length)", variant="asm"))
+    run.cov["hist"]["lengths>=2^31"] = len(outs["vh"])
+    run.say(f"C12: {len(outs['vh'])} giant-length cases through both builds, {m} differences")
 
 
 # ---- frame layer ---------------------------------------------------------------------------
